@@ -99,11 +99,15 @@ impl UpdaterState {
             release_version.to_owned(),
             patch_public_key,
         );
+        // Ensure we clear any patch data if we're creating a new state, and do so BEFORE
+        // recording the new release version: if the process dies (or a write fails) in
+        // between, the old version is still on disk and the next launch starts over. In the
+        // other order the patches of the previous release would be left selectable under the
+        // new release version.
+        let _ = state.patch_manager.reset();
         if let Err(e) = state.save() {
             shorebird_warn!("Error saving state {:?}, ignoring.", e);
         }
-        // Ensure we clear any patch data if we're creating a new state.
-        let _ = state.patch_manager.reset();
         state
     }
 
